@@ -38,12 +38,12 @@ const c20Keys = 7
 func (c20) ID() string { return "C20" }
 func (c20) NRuns(tier string) int {
 	if tier == "thorough" {
-		return 5040
+		return 5040 * 4 // every order with four call orders / schedules
 	}
 	return 720
 }
 func (c20) Rule() string {
-	return "one run = one fresh worker process and one iteration order of the 7-key level map (orders enumerated as Fisher-Yates choice sequences, without replacement; thorough = all 5040 = exhaustive over orders); each run evaluates sql levels -8..64 forward and ASE levels -3..8 backward, every call twice at seeded shuffled positions, (1) under the canonical map order, (2) under the run's order, (3) from 2..4 concurrent tasks under a seeded schedule and the race detector; all answers for one input must agree and match the statement's table; non-trivial = order differs from canonical; distinct = distinct order"
+	return "one run = one fresh worker process and one iteration order of the 7-key level map (orders enumerated as Fisher-Yates choice sequences, without replacement; thorough = all 5040, four runs each = exhaustive over orders); each run evaluates sql levels -8..64 forward and ASE levels -3..8 backward, every call twice at seeded shuffled positions, (1) under the canonical map order, (2) under the run's order, (3) from 2..4 concurrent tasks under a seeded schedule and the race detector; all answers for one input must agree and match the statement's table; non-trivial = order differs from canonical; distinct = distinct (order, call seed)"
 }
 func (c20) Components() map[string]string {
 	return map[string]string{"isolationlevels.go": "real (rewritten)", "map iteration order": "stub: simrt.MapKeys seeded permutation", "goroutine scheduling": "simulated (simrt baton scheduler) in the concurrent execution", "process": "real: one OS process per run"}
@@ -60,7 +60,7 @@ func c20Digits(order int) []int {
 }
 
 func (c20) Gen(r *Rand, idx int, tier string) interface{} {
-	order := idx
+	order := idx % 5040
 	if tier != "thorough" {
 		order = (idx*7 + idx%7) % 5040
 	}
@@ -247,7 +247,7 @@ func (c20) Run(plan interface{}, schedSeed uint64, replay []simrt.Choice, lenien
 		}
 	}
 	if nontrivial {
-		v.Nontrivial = fmt.Sprint(p.Order)
+		v.Nontrivial = fmt.Sprintf("%d|%d", p.Order, p.CallSeed)
 	}
 	v.ProbeN("map-iterations", len(out2.Tape)/len(p.Digits))
 	v.ProbeN("concurrent-evaluations", len(conc)*len(calls))
